@@ -1,1 +1,304 @@
-def hash_rules(chk, program): pass
+"""rules_msg.py -- message.py rules: identity hash (C17) and preferred-unit conversion (C18)."""
+from __future__ import annotations
+
+import ast
+import math
+from fractions import Fraction
+
+from . import sym
+from .sym import C, NONE, show
+from .model import AnalysisError
+
+MSG = 'nmea2000/message.py'
+UT = 'nmea2000/utils.py'
+
+def loop_body_events(fn, loop, extra_params=()):
+    """SymExec of a for-loop body as if it were a function of the enclosing function's parameters + the loop variable"""
+    args = ast.arguments(posonlyargs=[], args=[ast.arg(arg=a.arg) for a in fn.args.args] + [ast.arg(arg=n.id) for n in ast.walk(loop.target) if isinstance(n, ast.Name)] +
+                         [ast.arg(arg=x) for x in extra_params], kwonlyargs=[], kw_defaults=[], defaults=[])
+    fake = ast.FunctionDef(name=fn.name + '$loop', args=args, body=loop.body, decorator_list=[], lineno=loop.lineno, col_offset=0)
+    ex = sym.SymExec(fake)
+    ex.run()
+    return ex
+
+# ---------------------------------------------------------------------------
+# C17
+# ---------------------------------------------------------------------------
+def hash_rules(chk, program):
+    fn = program.fn('message', 'NMEA2000Message.add_data')
+    params = [a.arg for a in fn.args.args]
+    # hash = None unconditionally first; under build_network_map: hash = hashlib.<f>(key.encode()).hexdigest()
+    top = [s for s in fn.body]
+    ifs = [s for s in top if isinstance(s, ast.If)]
+    flag = None
+    for p in params:
+        if 'network' in p or 'map' in p:
+            flag = p
+    hash_stores = [n for n in ast.walk(fn) if isinstance(n, ast.Assign) and any(isinstance(t, ast.Attribute) and t.attr == 'hash' for t in n.targets)]
+    none_first = [n for n in top if isinstance(n, ast.Assign) and any(isinstance(t, ast.Attribute) and t.attr == 'hash' for t in n.targets) and isinstance(n.value, ast.Constant) and n.value.value is None]
+    guarded = []
+    for i in ifs:
+        if isinstance(i.test, ast.Name) and i.test.id == flag:
+            guarded = [n for n in ast.walk(i) if n in hash_stores]
+    chk.check(bool(none_first) and len(hash_stores) == 2 and len(guarded) == 1, 'HASH-DEPS', 'hash-only-when-mapping', file=MSG, line=fn.lineno, func='add_data',
+              expected=f"self.hash = None, and a digest only under `if {flag}`", found=[ast.unparse(h)[:70] for h in hash_stores])
+    if not guarded:
+        return
+    hs = guarded[0]
+    v = hs.value
+    # hashlib.<algo>(X.encode()).hexdigest()
+    algo = None; keyname = None
+    if isinstance(v, ast.Call) and isinstance(v.func, ast.Attribute) and v.func.attr in ('hexdigest', 'digest') and isinstance(v.func.value, ast.Call):
+        inner = v.func.value
+        if isinstance(inner.func, ast.Attribute) and isinstance(inner.func.value, ast.Name) and inner.func.value.id == 'hashlib':
+            algo = inner.func.attr
+            a0 = inner.args[0] if inner.args else None
+            if isinstance(a0, ast.Call) and isinstance(a0.func, ast.Attribute) and a0.func.attr == 'encode' and isinstance(a0.func.value, ast.Name):
+                keyname = a0.func.value.id
+    chk.check(algo in ('md5', 'sha1', 'sha256', 'blake2b', 'sha224', 'sha512') and keyname is not None, 'HASH-DEPS', 'process-independent-digest', file=MSG, line=hs.lineno, func='add_data',
+              expected='hashlib.<algorithm>(key.encode()).hexdigest() -- never the per-process builtin hash()', found=ast.unparse(v)[:100])
+    uses_builtin_hash = [n for n in ast.walk(fn) if isinstance(n, ast.Call) and isinstance(n.func, ast.Name) and n.func.id == 'hash']
+    chk.check(not uses_builtin_hash, 'HASH-DEPS', 'no-builtin-hash', file=MSG, line=fn.lineno, func='add_data', expected='builtin hash() not used (salted per process)', found=len(uses_builtin_hash), nontrivial=False)
+    if keyname is None:
+        return
+    # the key: initial value and the loop that extends it
+    ifnode = [i for i in ifs if isinstance(i.test, ast.Name) and i.test.id == flag][0]
+    init = [n for n in ifnode.body if isinstance(n, ast.Assign) and any(isinstance(t, ast.Name) and t.id == keyname for t in n.targets)]
+    loops = [n for n in ifnode.body if isinstance(n, ast.For)]
+    ex0 = sym.SymExec(fn)
+    self_t = ('param', params[0])
+    init_ok = False
+    if len(init) == 1:
+        t = ex0.expr(init[0].value)
+        deps = {s_ for s_ in sym.walk(t) if s_[0] == 'attr' and s_[1] == self_t}
+        init_ok = deps == {('attr', self_t, 'id')}
+        chk.check(init_ok, 'HASH-DEPS', 'key-starts-with-id', file=MSG, line=init[0].lineno, func='add_data', expected='key starts from self.id only', found=show(t))
+    else:
+        chk.violation('HASH-DEPS', 'key-starts-with-id', file=MSG, line=ifnode.lineno, func='add_data', expected='one initial assignment of the key', found=len(init))
+    chk.check(len(loops) == 1, 'HASH-DEPS', 'one-field-loop', file=MSG, line=ifnode.lineno, func='add_data', expected='one loop over self.fields', found=len(loops))
+    if len(loops) == 1:
+        lp = loops[0]
+        it_ok = ast.unparse(lp.iter) == f"{params[0]}.fields"
+        chk.check(it_ok, 'HASH-DEPS', 'iterates-fields-in-order', file=MSG, line=lp.lineno, func='add_data', expected='for f in self.fields (field order)', found=ast.unparse(lp.iter))
+        ex = loop_body_events(fn, lp, extra_params=(keyname,))
+        fvar = ('param', lp.target.id) if isinstance(lp.target, ast.Name) else None
+        keyt = ex.state.env.get(keyname)
+        # expected: key = ite(f.part_of_primary_key, key + sep + str(f.raw_value), key)
+        ok = False
+        found = show(keyt) if keyt else None
+        if keyt is not None and keyt[0] == 'ite':
+            c, a, b = keyt[1], keyt[2], keyt[3]
+            if c == ('attr', fvar, 'part_of_primary_key') and b == ('param', keyname):
+                deps = {s_ for s_ in sym.walk(a) if s_[0] == 'attr' and s_[1] == fvar}
+                leaves = _sum_leaves(a)
+                ok = deps == {('attr', fvar, 'raw_value')} and leaves and leaves[0] == ('param', keyname) and any(sym.is_const(x) and isinstance(x[1], str) and x[1] for x in leaves[1:-1]) \
+                    and leaves[-1] == ('call', ('name', 'str'), (('attr', fvar, 'raw_value'),), ())
+        chk.check(ok, 'HASH-DEPS', 'key-extended-by-pk-raw-values-only', file=MSG, line=lp.lineno, func='add_data',
+                  expected='key += <separator> + str(f.raw_value) exactly for fields with part_of_primary_key; nothing else enters the key', found=found)
+        other_writes = [e for e in ex.events if e[0] == 'store']
+        chk.check(not other_writes, 'HASH-DEPS', 'loop-writes-nothing-else', file=MSG, line=lp.lineno, func='add_data', expected='no attribute written in the loop', found=[show(e[2]) for e in other_writes], nontrivial=False)
+    # no statement between the loop and the digest changes the key
+    idx_loop = ifnode.body.index(loops[0]) if loops else -1
+    between = [s for s in ifnode.body[idx_loop + 1:] if s is not hs and any(isinstance(n, ast.Name) and n.id == keyname and isinstance(n.ctx, ast.Store) for n in ast.walk(s))]
+    chk.check(not between, 'HASH-DEPS', 'key-not-modified-after-loop', file=MSG, line=hs.lineno, func='add_data', expected='digest of exactly the key built above', found=[ast.unparse(s)[:60] for s in between], nontrivial=False)
+    # HASH-ORDER in the decoder: add_data precedes apply_preferred_units; neither writes raw_value / id
+    dfn = program.fn('decoder', 'NMEA2000Decoder._call_decode_function')
+    order = [n.func.attr for n in ast.walk(dfn) if isinstance(n, ast.Call) and isinstance(n.func, ast.Attribute) and n.func.attr in ('add_data', 'apply_preferred_units')]
+    lines = {n.func.attr: n.lineno for n in ast.walk(dfn) if isinstance(n, ast.Call) and isinstance(n.func, ast.Attribute) and n.func.attr in ('add_data', 'apply_preferred_units')}
+    chk.check(sorted(order) == ['add_data', 'apply_preferred_units'] and lines['add_data'] < lines['apply_preferred_units'], 'HASH-ORDER', 'hash-before-unit-conversion', file='nmea2000/decoder.py',
+              line=lines.get('add_data', dfn.lineno), func='_call_decode_function', expected='add_data (hash) is called before apply_preferred_units', found=order)
+    args = [n for n in ast.walk(dfn) if isinstance(n, ast.Call) and isinstance(n.func, ast.Attribute) and n.func.attr == 'add_data']
+    if args:
+        a = args[0].args
+        chk.check(len(a) >= 6 and ast.unparse(a[5]) == 'self.build_network_map', 'HASH-DEPS', 'flag-is-build_network_map', file='nmea2000/decoder.py', line=args[0].lineno, func='_call_decode_function',
+                  expected='the mapping flag handed to add_data is the decoder option', found=ast.unparse(a[5]) if len(a) >= 6 else None)
+    for q in ('NMEA2000Message.add_data', 'NMEA2000Message.apply_preferred_units'):
+        f2 = program.fn('message', q)
+        bad = [n for n in ast.walk(f2) if isinstance(n, ast.Attribute) and isinstance(n.ctx, ast.Store) and n.attr in ('raw_value', 'id', 'part_of_primary_key')]
+        chk.check(not bad, 'HASH-ORDER', f"{q}::does-not-touch-hash-inputs", file=MSG, line=f2.lineno, func=q, expected='raw_value / id / part_of_primary_key never written', found=[b.attr for b in bad])
+
+def _sum_leaves(t):
+    if t[0] == 'binop' and t[1] == '+':
+        return _sum_leaves(t[2]) + _sum_leaves(t[3])
+    return [t]
+
+# ---------------------------------------------------------------------------
+# C18
+# ---------------------------------------------------------------------------
+PHYS = {
+    ('TEMPERATURE', 'c'): (Fraction(1), Fraction(-27315, 100), 'K -> degC'),
+    ('TEMPERATURE', 'f'): (Fraction(9, 5), Fraction(-45967, 100), 'K -> degF'),
+    ('PRESSURE', 'bar'): (Fraction(1, 100000), Fraction(0), 'Pa -> bar'),
+    ('PRESSURE', 'psi'): (1 / 6894.757293168, 0.0, 'Pa -> psi'),
+    ('ANGLE', 'deg'): (180 / math.pi, 0.0, 'rad -> deg'),
+    ('SPEED', 'kts'): (Fraction(3600, 1852), Fraction(0), 'm/s -> kn'),
+}
+
+def affine(t, x):
+    """(a, b, rounding digits or None) such that t = round(a*x + b, k) ; None if not affine in x"""
+    k = t[0]
+    if t == x:
+        return (1.0, 0.0, None)
+    if k == 'const' and isinstance(t[1], (int, float)) and not isinstance(t[1], bool):
+        return (0.0, float(t[1]), None)
+    if k == 'binop':
+        l, r = affine(t[2], x), affine(t[3], x)
+        if l is None or r is None:
+            return None
+        op = t[1]
+        if op == '+': return (l[0] + r[0], l[1] + r[1], l[2] if l[2] is not None else r[2])
+        if op == '-': return (l[0] - r[0], l[1] - r[1], l[2] if l[2] is not None else r[2])
+        if op == '*':
+            if l[0] == 0: return (l[1] * r[0], l[1] * r[1], r[2])
+            if r[0] == 0: return (l[0] * r[1], l[1] * r[1], l[2])
+            return None
+        if op == '/':
+            if r[0] == 0 and r[1] != 0: return (l[0] / r[1], l[1] / r[1], l[2])
+            return None
+        return None
+    if k == 'call' and t[1] == ('name', 'round') and t[2]:
+        inner = affine(t[2][0], x)
+        if inner is None:
+            return None
+        digits = 0
+        if len(t[2]) > 1:
+            if not sym.is_const(t[2][1]):
+                return None
+            digits = t[2][1][1]
+        return (inner[0], inner[1], digits)
+    if k == 'call' and t[1] == ('attr', ('name', 'math'), 'degrees') and len(t[2]) == 1:
+        inner = affine(t[2][0], x)
+        if inner is None:
+            return None
+        f = 180 / math.pi
+        return (inner[0] * f, inner[1] * f, inner[2])
+    return None
+
+def helper_affine(program, name):
+    u = program.mod('utils')
+    fn = u.defs.get(name)
+    if fn is None:
+        return None, f"utils.{name} not found"
+    ex = sym.SymExec(fn)
+    try:
+        ex.run()
+    except sym.Unsupported as e:
+        return None, str(e)
+    p = ('param', ex.params[0])
+    rets = [e for e in ex.events if e[0] == 'return']
+    none_ok = bool(rets) and rets[0][2] == NONE and sym.conj(rets[0][1]) == [('cmp', 'is', p, NONE)]
+    others = rets[1:] if none_ok else rets
+    if len(others) != 1:
+        return None, f"{len(others)} value-returning paths"
+    a = affine(others[0][2], p)
+    if a is None:
+        return None, 'return value is not an affine function of the argument: ' + show(others[0][2])
+    return {'a': a[0], 'b': a[1], 'digits': a[2], 'none_to_none': none_ok, 'line': fn.lineno, 'term': show(others[0][2])}, None
+
+def unit_rules(chk, program):
+    fn = program.fn('message', 'NMEA2000Message.apply_preferred_units')
+    params = [a.arg for a in fn.args.args]
+    loops = [s for s in fn.body if isinstance(s, ast.For)]
+    if len(loops) != 1 or ast.unparse(loops[0].iter) != f"{params[0]}.fields":
+        raise AnalysisError('apply_preferred_units: loop over self.fields not found')
+    lp = loops[0]
+    # early exit on an empty preference map is fine; anything else before the loop is inspected
+    for s in fn.body:
+        if s is lp or (isinstance(s, ast.Expr) and isinstance(s.value, ast.Constant)):
+            continue
+        okpre = isinstance(s, ast.If) and all(isinstance(b, ast.Return) for b in s.body) and not s.orelse
+        chk.check(okpre, 'UNIT-EFFECT', f"pre-loop::{ast.unparse(s)[:40]}", file=MSG, line=s.lineno, func='apply_preferred_units', expected='only an early return before the loop', found=ast.unparse(s)[:60], nontrivial=False)
+    ex = loop_body_events(fn, lp)
+    f = ('param', lp.target.id)
+    prefs = ('param', params[1])
+    stores = [e for e in ex.events if e[0] == 'store']
+    others = [e for e in ex.events if e[0] not in ('store',)]
+    for e in others:
+        if e[0] in ('return', 'raise', 'expr', 'del'):
+            chk.violation('UNIT-EFFECT', f"loop::{e[0]}@{show(e[2])[:40]}", file=MSG, line=e[-1], func='apply_preferred_units', expected='only guarded stores in the loop', found=e[0])
+    rows = {}
+    for e in stores:
+        tgt, val = e[2], e[3]
+        ok_tgt = tgt[0] == 'attr' and tgt[1] == f and tgt[2] in ('value', 'unit_of_measurement')
+        chk.check(ok_tgt, 'UNIT-EFFECT', f"store::{show(tgt)}", file=MSG, line=e[-1], func='apply_preferred_units', expected='only f.value and f.unit_of_measurement are written', found=show(tgt))
+        if not ok_tgt:
+            continue
+        q = None; lit = None
+        for g in sym.conj(e[1]):
+            if g[0] == 'cmp' and g[1] == '==':
+                for a, b in ((g[2], g[3]), (g[3], g[2])):
+                    if a == ('attr', f, 'physical_quantities') and b[0] == 'attr' and b[1] == ('name', 'PhysicalQuantities'):
+                        q = b[2]
+                    if sym.is_const(b) and isinstance(b[1], str) and a[0] == 'call' and a[1] == ('attr', prefs, 'get') and a[2] and a[2][0][0] == 'attr' and a[2][0][1] == ('name', 'PhysicalQuantities'):
+                        lit = (a[2][0][2], b[1])
+        if q is None or lit is None:
+            chk.violation('UNIT-EFFECT', f"store-guard::{show(tgt)}@{e[-1]}", file=MSG, line=e[-1], func='apply_preferred_units',
+                          expected="store guarded by the field's physical quantity and by the requested unit", found=[show(g)[:80] for g in e[1]])
+            continue
+        chk.check(q == lit[0], 'UNIT-TABLE', f"{q}/{lit[1]}::same-quantity", file=MSG, line=e[-1], func='apply_preferred_units', expected=f"preference looked up for {q}", found=lit[0], nontrivial=False)
+        row = rows.setdefault((q, lit[1]), {})
+        ug = None
+        for g in sym.conj(e[1]):
+            if g[0] == 'cmp' and g[1] == '==':
+                for a, b in ((g[2], g[3]), (g[3], g[2])):
+                    if a == ('attr', f, 'unit_of_measurement') and sym.is_const(b):
+                        ug = b[1]
+        row.setdefault('unit_guards', []).append(ug)
+        if tgt[2] == 'value':
+            row['value'] = val; row['line'] = e[-1]
+        else:
+            row['label'] = val
+    exp = set(PHYS)
+    chk.check(set(rows) == exp, 'UNIT-TABLE', 'recognised-preferences', file=MSG, line=fn.lineno, func='apply_preferred_units',
+              expected=sorted(f"{a}/{b}" for a, b in exp), found=sorted(f"{a}/{b}" for a, b in rows))
+    for (q, lit), row in sorted(rows.items()):
+        inst = f"{q}/{lit}"
+        chk.check(lit == lit.lower(), 'UNIT-NORM', inst, file=MSG, line=row.get('line', fn.lineno), func='apply_preferred_units', expected='lower-case literal (preferences are lower-cased by the decoder)', found=lit)
+        chk.check('value' in row and 'label' in row and sym.is_const(row.get('label', NONE)) and isinstance(row['label'][1], str) and row['label'][1], 'UNIT-EFFECT', f"{inst}::both-rewritten",
+                  file=MSG, line=row.get('line', fn.lineno), func='apply_preferred_units', expected='value and unit label rewritten together', found=sorted(row))
+        v = row.get('value')
+        if v is None or (q, lit) not in PHYS:
+            continue
+        okcall = v[0] == 'call' and v[1][0] == 'name' and v[2] == (('attr', f, 'value'),)
+        chk.check(okcall, 'UNIT-TABLE', f"{inst}::converts-own-value", file=MSG, line=row['line'], func='apply_preferred_units', expected='f.value = helper(f.value)', found=show(v))
+        if not okcall:
+            continue
+        info, why = helper_affine(program, v[1][1])
+        if info is None:
+            chk.unknown('UNIT-AFFINE', inst, why, UT, 0)
+            continue
+        a, b, what = PHYS[(q, lit)]
+        a, b = float(a), float(b)
+        rel = lambda x, y: abs(x - y) <= 1e-3 * max(abs(y), 1e-12) if y != 0 else abs(x) < 1e-9
+        chk.check(rel(info['a'], a) and (abs(info['b'] - b) < 5e-3), 'UNIT-AFFINE', f"{inst}::{v[1][1]}", file=UT, line=info['line'], func=v[1][1],
+                  expected={'what': what, 'slope': a, 'intercept': b}, found={'slope': info['a'], 'intercept': info['b'], 'round_digits': info['digits'], 'term': info['term']})
+        chk.check(info['none_to_none'], 'UNIT-AFFINE', f"{inst}::{v[1][1]}::absent-stays-absent", file=UT, line=info['line'], func=v[1][1], expected='None -> None first', found=info['none_to_none'])
+    # decoder lower-cases preferences
+    init = program.fn('decoder', 'NMEA2000Decoder.__init__')
+    a = [n for n in ast.walk(init) if isinstance(n, ast.Assign) and any(isinstance(t, ast.Attribute) and t.attr == 'preferred_units' for t in n.targets)]
+    ok = len(a) == 1 and isinstance(a[0].value, ast.DictComp) and isinstance(a[0].value.value, ast.Call) and isinstance(a[0].value.value.func, ast.Attribute) and a[0].value.value.func.attr == 'lower' \
+        and isinstance(a[0].value.key, ast.Name)
+    chk.check(ok, 'UNIT-NORM', 'decoder-lower-cases-preferences', file='nmea2000/decoder.py', line=a[0].lineno if a else init.lineno, func='__init__',
+              expected='{k: v.lower() for k, v in preferred_units.items()}', found=ast.unparse(a[0].value) if a else None)
+    dfn = program.fn('decoder', 'NMEA2000Decoder._call_decode_function')
+    calls = [n for n in ast.walk(dfn) if isinstance(n, ast.Call) and isinstance(n.func, ast.Attribute) and n.func.attr == 'apply_preferred_units']
+    chk.check(len(calls) == 1 and ast.unparse(calls[0].args[0]) == 'self.preferred_units', 'UNIT-NORM', 'decoder-passes-its-preferences', file='nmea2000/decoder.py',
+              line=calls[0].lineno if calls else dfn.lineno, func='_call_decode_function', expected='apply_preferred_units(self.preferred_units)', found=[ast.unparse(c) for c in calls])
+    # database: quantities with a conversion exist as enum members and fields carrying them use the SI unit the helper assumes
+    db = program.db
+    si = {'TEMPERATURE': 'K', 'PRESSURE': 'Pa', 'ANGLE': 'rad', 'SPEED': 'm/s'}
+    n = 0
+    for d in db.defs:
+        for fl in d.fields:
+            if fl.quantity in si:
+                n += 1
+                if fl.unit != si[fl.quantity]:
+                    # the database marks this field with the quantity but another unit: converting it as if it were SI is wrong,
+                    # so every row of that quantity must be guarded by the source unit
+                    guarded = all(all(ug == si[fl.quantity] for ug in row.get('unit_guards', [None])) for (q, lit), row in rows.items() if q == fl.quantity)
+                    chk.check(guarded, 'UNIT-TABLE', f"db::{d.key}::{fl.dbid}", file=MSG, line=fn.lineno, func='apply_preferred_units',
+                              expected=f"conversion of {fl.quantity} applied only to values in {si[fl.quantity]} (this database field is in {fl.unit!r})",
+                              found='converted regardless of the source unit',
+                              detail=f"with the preference set, a value already in {fl.unit} is pushed through the {si[fl.quantity]} conversion")
+    chk.ok('UNIT-TABLE', 'db::convertible-fields', file='canboat.json', line=0, found=f"{n} fields carry a convertible quantity")
+    chk.unit('convertible_fields', n)
